@@ -182,6 +182,23 @@ func mappingOf(w *World, fn *ssa.Function) ([]mapEntry, string) {
 		if !ok || dst == "" {
 			return
 		}
+		// a sub-structure built by a converter function of the repository: its own mapping, re-rooted
+		if call, ok := st.Val.(*ssa.Call); ok {
+			if cal := call.Call.StaticCallee(); cal != nil && cal != fn && isRepoFunc(cal) && len(cal.Params) == 1 && len(call.Call.Args) == 1 && len(cal.Blocks) > 0 {
+				if sub, why := mappingOf(w, cal); why == "" && len(sub) > 0 {
+					if c0, argChain := describeSource(call.Call.Args[0], param); c0 == "id" {
+						for _, e := range sub {
+							src := e.src
+							if argChain != "" {
+								src = argChain + "." + e.src
+							}
+							out = append(out, mapEntry{dst: dst + "." + e.dst, src: src, conv: e.conv, pos: e.pos})
+						}
+						return
+					}
+				}
+			}
+		}
 		conv, src := describeSource(st.Val, param)
 		out = append(out, mapEntry{dst: dst, src: src, conv: conv, pos: lineOf(w, st)})
 	})
